@@ -1242,7 +1242,18 @@ func TestVerifPool(t *testing.T) {
 			sc = sc[:1]
 			c := vt.Map(sc[0]["conf"])
 			c["special"], c["trunk"], c["minIdle"], c["policy"] = "", false, 0, "most_ips"
-			if (k/8)%2 == 0 {
+			if (k/8)%3 == 2 {
+				// dual stack with assign calls that take effect but report an error / a partial result, per family (the same
+				// history as the k%5 == 4 tail, here without a random prefix so that the request budget cannot cut it short)
+				c["v6"], c["cap"], c["slots"], c["batch"], c["pre"], c["maxIdle"] = true, 3, 2, 2, 0, 1
+				sc = append(sc, vt.M{"a": "uninhibit"}, vt.M{"a": "alloc", "p": 1}, vt.M{"a": "settle"},
+					vt.M{"a": "plan", "kind": "assign6", "outcomes": []any{"fa"}}, vt.M{"a": "alloc", "p": 2}, vt.M{"a": "alloc", "p": 3}, vt.M{"a": "settle"},
+					vt.M{"a": "uninhibit"}, vt.M{"a": "settle"}, vt.M{"a": "release", "p": 2},
+					vt.M{"a": "plan", "kind": "assign4", "outcomes": []any{"fa:vswfull"}}, vt.M{"a": "plan", "kind": "assign6", "outcomes": []any{"partial:1"}},
+					vt.M{"a": "alloc", "p": 4}, vt.M{"a": "alloc", "p": 2}, vt.M{"a": "settle"}, vt.M{"a": "uninhibit"}, vt.M{"a": "settle"},
+					vt.M{"a": "release", "p": 1}, vt.M{"a": "plan", "kind": "assign6", "outcomes": []any{"fa"}}, vt.M{"a": "plan", "kind": "assign4", "outcomes": []any{"partial:1"}},
+					vt.M{"a": "alloc", "p": 1}, vt.M{"a": "settle"}, vt.M{"a": "uninhibit"}, vt.M{"a": "settle"})
+			} else if (k/8)%3 == 0 {
 				// IPv6 switched on for a node whose interface carries IPv4 addresses only: more pods arrive at once than the
 				// interface has IPv6 slots; the pending IPv6 requests must count against the per-interface limit
 				c["v6"], c["cap"], c["slots"], c["batch"], c["pre"], c["noPre6"], c["preV4"], c["maxIdle"] = true, 3, 2, 3, 1, true, 2, 3
